@@ -24,6 +24,22 @@ def hmatrix(d, norb, dets, terms, e0):
     return H
 
 
+def hmatrix_nb(d, norb, dets, terms, e0):
+    """matrix of H on the determinants of a number-broken wavefunction (convention iota * nbTwist)"""
+    from lean_driver import fmt_vec, fmt_op
+    terms = list(terms)
+    if e0 != 0:
+        terms.append((complex(e0), []))
+    idx = {det: i for i, det in enumerate(dets)}
+    H = numpy.zeros((len(dets), len(dets)), dtype=numpy.complex128)
+    for j, (a, b) in enumerate(dets):
+        col = U.parse_vec(d.ask(f"applynb {norb} {fmt_vec([(a, b, 1.0)])} {fmt_op(terms)}"))
+        for det, v in col.items():
+            if det in idx:
+                H[idx[det], j] = complex(float(v[0]), float(v[1]))
+    return H
+
+
 def vec_of(w, dets):
     dd = U.wfn_dict(w)
     return numpy.array([dd[x] for x in dets], dtype=numpy.complex128)
@@ -143,6 +159,11 @@ def make_case(ctx, rng, route, norb):
 
 
 def run(ctx):
+    run_main(ctx)
+    run_number_broken(ctx)
+
+
+def run_main(ctx):
     fqe = ctx.fqe
     import props.C01 as C01
     d, rng = ctx.driver, ctx.rng
@@ -305,6 +326,86 @@ def run(ctx):
         if worst > 1e-8:
             ctx.disagree("evolve:quadratic:wide-sector", f"distance to the free-fermion result = {worst:.3e} on a "
                          f"{len(astr)} x {len(bstr)} sector", desc)
+
+
+def run_number_broken(ctx):
+    """number-broken wavefunctions: exp(-i t H) for Hermitian Sz-conserving H with pairing terms (quadratic route through
+    the orbital rotation of the beta-inverted state, Taylor route for quartic terms)"""
+    fqe = ctx.fqe
+    import props.C01 as C01
+    from openfermion import FermionOperator, hermitian_conjugated, normal_ordered
+    d, rng = ctx.driver, ctx.rng
+    quick = ctx.tier == "quick"
+    for case in range(12 if quick else 150):
+        norb = rng.choice([2, 2, 3])
+        sz = rng.randint(-norb + 1, norb - 1)
+        w = fqe.get_spin_conserving_wavefunction(sz, norb)
+        U.random_fill(w, rng)
+        if w.norm() == 0:
+            continue
+        w.normalize()
+        fam = ["pairing", "mixed", "hop", "quartic"][case % 4]
+        op = FermionOperator()
+        for _ in range(rng.randint(2, 4)):
+            p, q, r_, t_ = (rng.randrange(norb) for _ in range(4))
+            c = rng.choice([-1, 1, 2, -2]) * rng.choice([0.25, 0.5, 1.0]) * (1j if rng.random() < 0.3 else 1)
+            if fam in ("pairing", "mixed"):
+                op += FermionOperator(((2 * p, 1), (2 * q + 1, 1)), c)
+            if fam in ("hop", "mixed"):
+                op += FermionOperator(((2 * p, 1), (2 * q, 0)), c) + FermionOperator(((2 * r_ + 1, 1), (2 * t_ + 1, 0)), c.conjugate())
+            if fam == "quartic":
+                op += FermionOperator(((2 * p, 1), (2 * q + 1, 1), (2 * r_ + 1, 1), (2 * t_ + 1, 0)), c)
+                op += FermionOperator(((2 * p, 1), (2 * q + 1, 1)), c / 2)
+        op = op + hermitian_conjugated(op)
+        nterms = len([t for t, c in normal_ordered(op).terms.items() if t and abs(c) > 0])
+        if nterms < 3:
+            continue            # the sparse route refuses number-changing strings (domain restriction, see C01)
+        e0 = rng.choice([0.0, 0.0, 0.7])
+        dets = U.wfn_dets(w)
+        if len(dets) > 64:
+            continue
+        terms = U.fermionop_terms(op)
+        H = hmatrix_nb(d, norb, dets, terms, e0)
+        if numpy.abs(H - H.conj().T).max() > 1e-12:
+            continue
+        t = rng.choice([0.13, -0.31, 0.5])
+        psi = vec_of(w, dets)
+        want = expm(-1j * t * H) @ psi
+        api = rng.choice(["time_evolve(op)", "time_evolve(ham)", "agu-taylor"]) if e0 == 0 else rng.choice(["time_evolve(ham)", "agu-taylor"])
+        desc = {"route": "numberbroken:" + fam, "norb": norb, "sz": sz, "t": t, "e0": e0, "api": api, "case": case,
+                "op": [[[list(f) for f in tt], [complex(c).real, complex(c).imag]] for tt, c in op.terms.items()]}
+        try:
+            before = U.wfn_dict(w)
+            if api == "time_evolve(op)":
+                out = w.time_evolve(t, op)
+            else:
+                ham = fqe.get_hamiltonian_from_openfermion(op, norb=norb, conserve_number=False, e_0=e0)
+                out = w.time_evolve(t, ham) if api == "time_evolve(ham)" else \
+                    w.apply_generated_unitary(t, "taylor", ham, accuracy=1e-12, expansion=60)
+        except RuntimeError as exc:
+            if "expansion limit reached" in str(exc):
+                ctx.count("raised-not-converged")
+                continue
+            ctx.disagree(f"evolve-raises:numberbroken:{api}:RuntimeError", str(exc)[:200], desc)
+            continue
+        except Exception as exc:
+            ctx.case(None)
+            ctx.disagree(f"evolve-raises:numberbroken:{fam}:{api}:{type(exc).__name__}", f"{api} raised {type(exc).__name__}: {str(exc)[:200]}", desc)
+            continue
+        got = vec_of(out, dets)
+        err = float(numpy.abs(got - want).max())
+        ctx.case(("evolve-nb", case), sample={k: desc[k] for k in ("route", "norb", "sz", "api", "t")} if case < 3 else None)
+        ctx.count(f"route:numberbroken:{fam}")
+        ctx.count(f"api:{api}")
+        if U.wfn_dict(w) != before:
+            ctx.disagree("evolve:input-changed:numberbroken", "out-of-place evolution changed its input", desc)
+        if err > 1e-8:
+            sig = f"evolve:numberbroken:{fam}:{api}"
+            if e0 != 0:
+                ov = numpy.vdot(want, got)
+                if abs(abs(ov) - 1) < 1e-8 and numpy.abs(got - ov * want).max() < 1e-8:
+                    sig = f"evolve:scalar-phase:numberbroken:{api}"
+            ctx.disagree(sig, f"distance to expm(-itH)psi = {err:.3e}", desc)
 
 
 def replay(ctx, rep):
